@@ -434,15 +434,22 @@ def plan_layout(tier, seed, nshards=64):
         parts.append({"alpha": "v1", "nmax": 4, "nconf": 16})
     parts.append({"alpha": "seed", "nmax": 3, "nconf": 16, "seed": seed})
     parts.append({"alpha": "w4", "nmax": 5 if tier == "quick" else 7, "nconf": 16})  # one width: more labels per input
+    parts.append({"alpha": "w4s", "nmin": 6, "nmax": 7, "nconf": len(MINI_CONFIGS)})  # 6-7 labels on 7 positions, bounds tight enough for >= 3 layers
     parts.append({"alpha": "frac", "nmax": 3 if tier == "quick" else 4, "nconf": len(FRAC_CONFIGS)})  # fractional widths
     parts.append({"alpha": "near", "nmax": 3 if tier == "quick" else 4, "nconf": len(NEAR_CONFIGS)})
     for base in BIG_BASES:
         parts.append({"alpha": "big", "base": base, "nmax": 3 if tier == "quick" else 4, "nconf": 5})
     shards = [{"kind": "probe"}]
     for p in parts:
-        ns = 256 if p["alpha"] == "v0n6" else nshards if p["alpha"] in ("v0", "v1", "w4") else 8
+        ns = 256 if p["alpha"] == "v0n6" else nshards if p["alpha"] in ("v0", "v1", "w4") else 16 if p["alpha"] == "w4s" else 8
         for r in range(ns):
             shards.append({"kind": "multisets", "part": p, "mod": ns, "rem": r})
+    for r in range(8):
+        shards.append({"kind": "direct", "nmax": 3 if tier == "quick" else 4, "mod": 8, "rem": r})
+    for r in range(16):
+        shards.append({"kind": "skew", "mod": 16, "rem": r})
+    for r in range(16):
+        shards.append({"kind": "groups", "mod": 16, "rem": r})
     if tier == "thorough":
         for n0 in range(1, 201, 4):
             shards.append({"kind": "sweep", "ns": list(range(n0, min(201, n0 + 4)))})
@@ -462,6 +469,8 @@ def part_alpha(p):
         return letters("t", 1)
     if p["alpha"] == "w4":
         return [(q, 4) for q in POS13]
+    if p["alpha"] == "w4s":
+        return [(2 * q, 4) for q in POS13[::2]]
     if p["alpha"] == "frac":
         return [(q, w) for q in POS13[::2] for w in (2.5, 0.5, 3.3)]
     if p["alpha"] == "near":
@@ -472,6 +481,8 @@ def part_alpha(p):
 
 
 def part_menu(p):
+    if p["alpha"] == "w4s":
+        return MINI_CONFIGS
     if p["alpha"] == "frac":
         return FRAC_CONFIGS
     if p["alpha"] == "near":
@@ -481,7 +492,7 @@ def part_menu(p):
     return CONFIGS
 
 
-PART_ORDER = {"v0n6": 7, "v0": 0, "v1": 1, "seed": 2, "near": 3, "big": 4, "w4": 5, "frac": 6}
+PART_ORDER = {"w4s": 8, "v0n6": 7, "v0": 0, "v1": 1, "seed": 2, "near": 3, "big": 4, "w4": 5, "frac": 6}
 SWEEP_WIDTHS = {"all4": lambda i: 4, "alt1-7": lambda i: 1 if i % 2 == 0 else 7, "w2.5": lambda i: 2.5}
 WIDE = {"w400": lambda i: 400}  # heavy blocks: the summed displacement against a bound reaches ~1e7
 SWEEP_CONFIGS = [{}, {"minPos": None}, {"maxPos": 300}, "fit-exact"]
@@ -517,6 +528,72 @@ def sweep_cases(ns_list, configs=None, pitches=None):
                     if n > 60 and c == {"maxPos": 300}:
                         opts = dict(SWEEP_BIG)
                     yield {"labels": labels, "opts": opts, "family": [n, wname, pitch, ci]}
+
+
+def family_cases(kind, part, nparts):
+    """Parametric families that small multisets cannot contain.
+    skew:   k narrow labels and one wide label tied on one target (a block that settles far off-centre) plus one label at
+            distance d, for every d on a 3-unit grid: whether the outlier is reached depends on a whole-layer quantity.
+    groups: two groups of labels at distance d under a band so sparse (density 0.02 .. 0.1) that nearly all of them are
+            pushed to farther layers: the nearest layer holds long runs of stubs, kept apart by the line spacing."""
+    idx = 0
+    if kind == "skew":
+        for k in (3, 4, 5, 6):
+            for wide in (60, 130, 260):
+                for at in range(k + 1):
+                    ws = [12] * k
+                    ws.insert(at, wide)
+                    for d in range(0, 420, 3):
+                        idx += 1
+                        if idx % nparts != part:
+                            continue
+                        labels = [(1000, w) for w in ws] + [(1000 + d, 12)]
+                        for ci, c in enumerate(({}, {"minPos": None}, {"minPos": None, "nodeSpacing": 0})):
+                            yield {"labels": labels, "opts": dict(c), "family": [k, wide, d, ci]}
+    else:
+        for n1, n2 in ((20, 20), (12, 28), (33, 3)):
+            for sp in (0, 1, 3):
+                for dens in (0.02, 0.1):
+                    for d in range(0, 130, 2):
+                        idx += 1
+                        if idx % nparts != part:
+                            continue
+                        labels = [(800, 4)] * n1 + [(800 + d, 4)] * n2
+                        yield {"labels": labels, "opts": {"minPos": 0, "maxPos": 2000, "density": dens, "nodeSpacing": sp},
+                               "family": [n1, sp, d, 0]}
+
+
+DIRECT_OPTS = [None, {}, {"maxPos": 10}, {"minPos": 2}, {"minPos": None}, {"minPos": None, "maxPos": 10}, {"nodeSpacing": 1.5},
+               {"maxPos": 8, "nodeSpacing": 0, "lineSpacing": 5}, {"minPos": 1, "maxPos": 30}]
+
+
+def evaluate_direct(prop, labels, opts, info):
+    """One layer handed to the public function removeOverlap(nodes, options) directly, with a partial (or no) option dict:
+    options that are not given take their documented defaults (lower bound 0, no upper bound, spacing 3)."""
+    from labella.node import Node
+    from labella.removeOverlap import removeOverlap
+    nodes = [Node(p, w, ("d", i)) for i, (p, w) in enumerate(labels)]
+    try:
+        with horizon(60.0):
+            removeOverlap(nodes, None if opts is None else dict(opts))
+    except Hang as e:
+        return ("HANG", str(e))
+    except Exception as e:
+        return ("EXC:" + type(e).__name__, "removeOverlap raised %r" % (e,))
+    eff = {"minPos": 0, "maxPos": None, "nodeSpacing": 3, "lineSpacing": 2}
+    eff.update(opts or {})
+    ns, lo, hi = effective(eff)
+    if any(abs(n.currentPos - target(n)) > 0.5 for n in nodes):
+        info["displaced_cases"] += 1
+        if prop == "C01":
+            info["nontrivial"] = True
+    if prop == "C01":
+        return check_c01_layer(nodes, ns)
+    if prop == "C02":
+        return check_c02_layer(nodes, ns, lo, hi, info)
+    if prop == "C03":
+        return check_c03_layer(nodes, ns, lo, hi, info)
+    return None
 
 
 PROBE = {"labels": [(5.0e9, 4), (5.0e9 + 2, 4)], "opts": {"minPos": 0, "maxPos": 100}}
@@ -575,8 +652,32 @@ def run_layout_shard(prop, shard):
             if idx % 997 == shard["rem"]:
                 acc.sample({"labels": labels, "opts": opts})
         return acc
-    gen = minisweep_cases(shard["ns"]) if shard["kind"] == "minisweep" else \
-        sweep_cases(shard["ns"], shard.get("configs"), shard.get("pitches"))
+    if shard["kind"] == "direct":
+        alpha = letters("q", 0)
+        for idx, ms in enumerate(multisets(alpha, shard["nmax"])):
+            if idx % shard["mod"] != shard["rem"]:
+                continue
+            labels = [alpha[i] for i in ms]
+            acc.states += 1
+            for ci, o in enumerate(DIRECT_OPTS):
+                info = _Info(acc)
+                bad = evaluate_direct(prop, labels, o, info)
+                acc.evals += 1
+                acc.trans += 1
+                acc.counters["direct_removeOverlap_calls"] += 1
+                if info.nontrivial:
+                    acc.nontriv += 1
+                if bad:
+                    acc.violation({"labels": labels, "opts": o, "direct": True}, bad[0] + ":direct", bad[1] + " [removeOverlap called directly]",
+                                  order=(10, len(labels), idx, ci))
+        acc.sample({"labels": labels, "opts": o, "direct": True})
+        return acc
+    if shard["kind"] in ("skew", "groups"):
+        gen = family_cases(shard["kind"], shard["rem"], shard["mod"])
+    elif shard["kind"] == "minisweep":
+        gen = minisweep_cases(shard["ns"])
+    else:
+        gen = sweep_cases(shard["ns"], shard.get("configs"), shard.get("pitches"))
     for case in gen:
         info = _Info(acc)
         bad = evaluate(prop, case["labels"], case["opts"], info)
@@ -584,6 +685,8 @@ def run_layout_shard(prop, shard):
         acc.states += 1
         acc.trans += 1
         acc.counters["sweep_cases"] += 1
+        if shard["kind"] in ("skew", "groups"):
+            acc.counters["family_%s_cases" % shard["kind"]] += 1
         if info.nontrivial:
             acc.nontriv += 1
         if bad:
@@ -613,6 +716,9 @@ class _Info(dict):
 def replay_layout(prop, case):
     labels = [tuple(x) for x in case["labels"]]
     acc = Acc()
+    if case.get("direct"):
+        bad = evaluate_direct(prop, labels, case["opts"], _Info(acc))
+        return (bad[0] + ":direct", bad[1]) if bad else None
     return evaluate(prop, labels, case["opts"], _Info(acc), bool(case.get("late_width")))
 
 
